@@ -110,6 +110,8 @@ class DevUnicast : public SimUnicast {
 public:
 	World *W; bool is_bc; Dev dev; Z q, gh;
 	CachinKursawePetzoldShoupRBC *rbc = nullptr;
+	std::vector<bool> *mutev = nullptr;   // silence switch of the net this endpoint sits on (default: World::mute)
+	size_t statj = (size_t)-1;            // index for World::bcasts (the party's identity; differs from j on a re-numbered net)
 	int cur_phase = 0;
 	long nb = 0, nend = 0, link_cnt = 0, after_end1 = 0;   // per phase: own broadcasts, own end markers, messages to the victim, broadcasts after the first end marker
 	long total_bc = 0; long rreq[2] = {0, 0};      // r-request messages sent per phase (payload awaited after the ready quorum)
@@ -127,13 +129,14 @@ public:
 // ------------------------------------------------------------------ world
 struct World {
 	size_t n; Sched sched; Net uni, bc; Barrier bar;
+	Net uni2, bc2; std::vector<bool> mute2;    // second network on which the parties sit at permuted indices (index-mapped Refresh)
 	std::vector<bool> mute;                    // party's outgoing messages are dropped (silence)
 	long dmax = 0;                             // honest-run link delays 0..dmax virtual seconds
 	Rng netrng;
 	uint64_t dropped_mute = 0, delayed = 0;
 	std::vector<long> bcasts;                  // broadcasts per party (all phases)
 	std::function<void()> probe; long probe_at = -1;   // debugging aid: called once when the clock passes probe_at
-	World(size_t n_, uint64_t sseed) : n(n_), sched(sseed), uni(n_, &sched), bc(n_, &sched), bar(n_), mute(n_, false), bcasts(n_, 0) {
+	World(size_t n_, uint64_t sseed) : n(n_), sched(sseed), uni(n_, &sched), bc(n_, &sched), bar(n_), uni2(n_, &sched), bc2(n_, &sched), mute2(n_, false), mute(n_, false), bcasts(n_, 0) {
 		sched.use_vclock = true; sched.random_pick = true;
 		netrng.seed(sseed, 0xde1a);
 		auto rule = [this](size_t from, size_t, mpz_ptr, long &delay, int &) -> bool {
@@ -142,6 +145,12 @@ struct World {
 			return true;
 		};
 		uni.fault = rule; bc.fault = rule;
+		auto rule2 = [this](size_t from, size_t, mpz_ptr, long &delay, int &) -> bool {
+			if (mute2[from]) { dropped_mute++; return false; }
+			if (dmax > 0) { delay = (long)netrng.below((uint64_t)dmax + 1); if (delay) delayed++; }
+			return true;
+		};
+		uni2.fault = rule2; bc2.fault = rule2;
 	}
 };
 
@@ -169,9 +178,9 @@ inline bool DevUnicast::Send(const std::vector<mpz_srcptr> &m, const size_t i, t
 		bool first = !(have_last && mpz_cmp(m[0], last_id.v) == 0 && mpz_cmp(m[2], last_s.v) == 0);
 		if (first) { have_last = true; mpz_set(last_id.v, m[0]); mpz_set(last_s.v, m[2]); }
 		bool endm = (mpz_cmp_ui(m[4], (unsigned long)n) == 0);
-		if (first) { nb++; total_bc++; W->bcasts[j]++; if (endm) nend++; else if (nend >= 1) after_end1++; }
+		if (first) { nb++; total_bc++; W->bcasts[statj == (size_t)-1 ? j : statj]++; if (endm) nend++; else if (nend >= 1) after_end1++; }
 		if (first && active()) {
-			if (dev.kind == D_SILENT && nb > dev.k && !W->mute[j]) { W->mute[j] = true; fired = true; }
+			{ std::vector<bool> &mv = mutev ? *mutev : W->mute; if (dev.kind == D_SILENT && nb > dev.k && !mv[j]) { mv[j] = true; fired = true; } }
 			if (dev.kind == D_FALSE_COMPLAINT && endm && nend == dev.k && !injected && rbc) {
 				// insert the value `victim` before this end marker: the end marker is re-broadcast
 				// under the next sequence number, this slot carries the complaint instead
